@@ -80,4 +80,13 @@ def workCall (prog : List Ev) (k spill : Nat) (s : St) : St := prog.foldl (ev k 
 def workStates (prog : List Ev) (k spill : Nat) (s : St) : List St :=
   (List.range (prog.length + 1)).map fun j => (prog.take j).foldl (ev k spill) s
 
+/-- A call in which the I/O operation `bad` fails (device full, I/O error). A checked operation
+(`?` in the source) ends the call there with an error; an unchecked one is lost — it has no effect —
+and the call carries on. Returns the state and whether `work()` returned an error. -/
+def callWithFailure (bad : Ev) (k spill : Nat) : List (Ev × Bool) → St → St × Bool
+  | [], s => (s, false)
+  | (e, checked) :: rest, s =>
+    if e = bad then (if checked then (s, true) else callWithFailure bad k spill rest s)
+    else callWithFailure bad k spill rest (ev k spill s e)
+
 end RR.FileSink
